@@ -101,16 +101,20 @@ def generate(tier, seed):
         src.append(fn(n, body))
         hs.append(Harness(n, "pair laws + owned/borrowed agreement for %s against one representative of every other type rank: %s" % (a, bs),
                           unwind=UNW, unwindset=UWS, recursion=rec_for([a] + bs), cap_s=CAP, cuts=cuts_for([a] + bs), typed_heap=has_container([a] + bs)))
-    fam_tr = [["int", "float", "big8"], ["nil", "list0", "imp1"], ["bin1", "bit1", "str1"]]
+    fam_tr = [["int", "float", "big8"], ["int", "float", "big8x"], ["nil", "list0", "imp1"], ["bin1", "bit1", "str1"]]
     if tier == "thorough":
         fam_tr = [["int", "float", "big1", "big8", "big9"], ["nil", "list0", "list1", "imp1"],
                   ["bin0", "bin1", "bin2", "bit1", "bit2", "str1"], ["tuple0", "tuple1i"], ["extfun", "intfun"], ["ref1", "ref2"],
                   ["atom1", "atom2"]]
+    seen = set()
     for fam in fam_tr:
         for a in fam:
             for b in fam:
                 for c in fam:
                     n = "c11_trans__%s__%s__%s" % (a, b, c)
+                    if n in seen:
+                        continue
+                    seen.add(n)
                     body = ("    let (a, _ra) = %s;\n    let (b, _rb) = %s;\n    let (c, _rc) = %s;\n    trans(&a, &b, &c);\n"
                             "    vk::leak(a); vk::leak(b); vk::leak(c);" % (L[a][0], L[b][0], L[c][0]))
                     src.append(fn(n, body))
